@@ -1,7 +1,16 @@
 #!/bin/bash
+# thorough tier of the listed properties (default: all) in a snapshot; with `vp run --with-repo` the snapshot of /repo
+# ($VP_RUN_REPO) is used instead of /repo itself, so that work going on in /repo cannot disturb the run
+if [ -n "$VP_RUN_REPO" ]; then
+  sed -i "s#\"/repo\"#\"$VP_RUN_REPO\"#" harness/Cargo.toml
+  sed -i "s#\"/repo/src/#\"$VP_RUN_REPO/src/#" harness/build.rs
+  sed -i "s#REPO = '/repo'#REPO = '$VP_RUN_REPO'#" tools/fingerprint.py
+  cp /repo/Cargo.lock "$VP_RUN_REPO/" 2>/dev/null
+fi
 ./setup.sh > setup.log 2>&1 || { tail -20 setup.log; exit 1; }
-for i in 01 02 03 04 05 06 07 08 09 10 11 12 13 14 15 16 17 18 19 20; do
-  s=$(date +%s); ./check C$i thorough 2>&1 | grep -E "^(OK|VIOLATION|KNOWN|NOTE|BUILD|DRIVER|SPEC)"; e=$(date +%s); echo "C$i thorough took $((e-s))s"
-  if ls replays/C$i-1.json >/dev/null 2>&1; then python3 -c "
-import json; j=json.load(open('replays/C$i-1.json')); print('   ', j.get('kind'), '|', j.get('channel',''), '|', (j.get('detail') or j.get('no_longer_checks') or '')[:600], '|', (j.get('line') or '')[:300])"; fi
+PROPS=${@:-C01 C02 C03 C04 C05 C06 C07 C08 C09 C10 C11 C12 C13 C14 C15 C16 C17 C18 C19 C20}
+for p in $PROPS; do
+  s=$(date +%s); ./check $p thorough 2>&1 | grep -E "^(OK|VIOLATION|KNOWN|NOTE|BUILD|DRIVER|SPEC)"; e=$(date +%s); echo "$p thorough took $((e-s))s"
+  if ls replays/$p-1.json >/dev/null 2>&1; then python3 -c "
+import json; j=json.load(open('replays/$p-1.json')); print('   ', j.get('kind'), '|', j.get('channel',''), '|', (j.get('detail') or j.get('no_longer_checks') or '')[:600], '|', (j.get('line') or '')[:300])"; fi
 done
